@@ -64,20 +64,20 @@ def run(ctx):
             continue
         if 'unwrap' in s:
             unw += 1
-            hit = [i for i, (fn, rx, why) in enumerate(UNWRAP_OK) if b.path.startswith(fn) and re.search(rx, callee)]
+            hit = [i for i, (fn, rx, why) in enumerate(UNWRAP_OK) if (b.path.startswith(fn) or lib.site_in(F, fn, b.path)) and re.search(rx, callee)]
             ctx.ob('4 unwrap %s <- %s' % (b.path, callee), 'K7-unwrap-audit', b.path,
                    'unwrap/expect on a Result carrying a database or I/O error is reviewed (a panic on the error path is not a clean stop)' + (': ' + UNWRAP_OK[hit[0]][2] if hit else ''),
                    bool(hit), 'unreviewed unwrap of %s' % callee, b.loc(bi))
             continue
         if not s:
-            hit = [i for i, (fn, rx, why) in enumerate(DROPPED_OK) if fn == b.path and re.search(rx, callee)]
+            hit = [i for i, (fn, rx, why) in enumerate(DROPPED_OK) if lib.site_in(F, fn, b.path) and re.search(rx, callee)]
             ctx.ob('1 dropped %s <- %s' % (b.path, callee), 'K6a-no-dropped-error', b.path,
                    'the result of a fallible call is never discarded' + (' (reviewed exception: %s)' % DROPPED_OK[hit[0]][2] if hit else ''), bool(hit),
                    'the Result of %s is dropped without being looked at' % callee, b.loc(bi))
             continue
         # examined locally
         local += 1
-        hit = [i for i, (fn, rx, why) in enumerate(LOCAL_HANDLING) if fn in (b.path, '*') and re.search(rx, callee)]
+        hit = [i for i, (fn, rx, why) in enumerate(LOCAL_HANDLING) if lib.site_in(F, fn, b.path) and re.search(rx, callee)]
         ctx.ob('1 local %s <- %s' % (b.path, callee), 'K6a-no-dropped-error', b.path,
                'a fallible result that is neither propagated nor stored is handled at a reviewed site' + (': ' + LOCAL_HANDLING[hit[0]][2] if hit else ''), bool(hit),
                'the Result of %s is only inspected (%s): the error does not leave the success path' % (callee, ','.join(sorted(x for x in s if 'fmt' not in x))[:120]), b.loc(bi))
@@ -126,8 +126,8 @@ def run(ctx):
         ctx.ob(label, 'K3-guard', fn, desc, ok, '', b.loc(site))
     rn = ctx.body('log::Log::read_next')
     if rn:
-        pushes = [bi for b2, bi in lib.calls_on_field(F, ['std::collections::VecDeque::<T, A>::push_back'], '.Log.cleanup_queue', bodies=[rn])]
-        ctx.ob('2g0 end-of-log-anchor', 'anchor', rn.path, 'read_next retires a finished log file onto the cleanup queue in one place', len(pushes) == 1, str(pushes))
+        pushes = lib.field_effect_sites(rn, ['re:VecDeque.*::push_back$'], '.Log.cleanup_queue')
+        ctx.ob('2g0 end-of-log-anchor', 'anchor', rn.path, 'read_next retires a finished log file onto the cleanup queue', len(pushes) >= 1, str(pushes))
         for s in pushes:
             eof_guarded(rn.path, s, '2g log-retired-only-on-eof', 'a log file is declared fully read (queued for truncation) only on the equal edge of io::Error::kind() == UnexpectedEof; any other read error is returned')
     ol = ctx.body('log::Log::open_log_file')
